@@ -47,6 +47,11 @@ func replayCorpus(t *testing.T, run *emit.Run) {
 			for form := 0; form < nSpellings; form++ {
 				scriptedKeyHandover(t, run, form, (form*5+3)%nSpellings)
 			}
+		case "queue-key-of-another-chain":
+			scriptedKeyOfAnotherChain(t, run, true)
+			scriptedKeyOfAnotherChain(t, run, false)
+		case "batch-more-than-100-confirms":
+			runBigSetHistory(t, run, true)
 		default:
 			t.Fatalf("%s: unknown scenario %q", f, e.Scenario)
 		}
@@ -138,4 +143,66 @@ func scriptedReassignWitness(t *testing.T, run *emit.Run) {
 	if !h.viol {
 		run.Count("latent-reassign", "NOT reproduced")
 	}
+}
+
+// scriptedKeyOfAnotherChain: validator 0 uses one key on both chains, then rotates the key of chain-b only
+// (rotated) or drops its chain-b account altogether (!rotated); a chain-b message is then signed with the
+// chain-a key and submitted under the chain-a account's address.  GetSigningKey must not find a key:
+// the validator has not registered that key for chain-b.  Recorded as a model case as well; the oracle
+// compares what is stored with what the harness registered.
+func scriptedKeyOfAnotherChain(t *testing.T, run *emit.Run, rotated bool) {
+	h := newQHist(t, run)
+	a := h.keyAddr(0)
+	rowA := acctRow{chain: qchains[0], addr: a.Hex(), key: a.Bytes()}
+	h.opRegister(0, []acctRow{rowA, {chain: qchains[1], addr: a.Hex(), key: a.Bytes()}})
+	h.opRegister(1, []acctRow{h.row(qchains[0], 1), h.row(qchains[1], 1)})
+	rows := []acctRow{rowA}
+	if rotated {
+		n := h.keyAddr(4)
+		rows = append(rows, acctRow{chain: qchains[1], addr: n.Hex(), key: n.Bytes()})
+	}
+	h.opRegister(0, rows)
+	chain := qchains[1]
+	em := &evmtypes.Message{ChainReferenceID: chain, TurnstoneID: "compass-" + chain, Assignee: h.e.vals[1].String(), AssigneeRemoteAddress: h.keyAddr(1).Hex(),
+		Action: &evmtypes.Message_SubmitLogicCall{SubmitLogicCall: &evmtypes.SubmitLogicCall{HexContractAddress: "0x0000000000000000000000000000000000000001",
+			Payload: []byte{9}, SenderAddress: []byte("alice"), Deadline: 1700001000}}}
+	kind, body, _ := describe(em)
+	id, err := h.e.cons.PutMessageInQueue(h.e.ctx, turnstoneQueue(chain), em, &consensus.PutOptions{RequireSignatures: true})
+	if err != nil {
+		t.Fatal(err)
+	}
+	h.items = append(h.items, id)
+	h.chainOf[id] = chain
+	h.step(fmt.Sprintf("C06.QPut %d %d %d %d false", qchainID(chain), kind, idOf(h.bodyIDs, body), idOf(h.relIDs, lowerOf(em.AssigneeRemoteAddress))), 0,
+		map[string]any{"op": "put", "chain": chain, "kind": kind, "id": id, "needs_estimate": false, "relayer": em.AssigneeRemoteAddress, "payload": "09"})
+	ver := h.vers[id][len(h.vers[id])-1]
+	sign := func(v, key int, addr string) {
+		sig, err := crypto.Sign(crypto.Keccak256(append([]byte(evmkeeper.SignaturePrefix), ver.bytes...)), h.keys[key])
+		if err != nil {
+			t.Fatal(err)
+		}
+		regNow, found := h.registeredKey(v, chain, addr)
+		err = h.e.cons.AddMessageSignature(h.e.ctx, h.e.vals[v], []*consensustypes.ConsensusMessageSignature{
+			{Id: id, QueueTypeName: turnstoneQueue(chain), Signature: sig, SignedByAddress: addr}})
+		c := classOf(err)
+		if c == 50 {
+			t.Fatalf("AddMessageSignature: %v", err)
+		}
+		if err == nil {
+			h.regAt[fmt.Sprintf("%d/%d", id, v)] = hex.EncodeToString(regNow)
+			if !found {
+				h.regAt[fmt.Sprintf("%d/%d", id, v)] = "(validator has no account " + addr + " registered for " + chain + ")"
+			}
+		}
+		h.step(fmt.Sprintf("C06.QSign %d %d %d %d (C06.SOver %d %s)", v, qchainID(chain), id, idOf(h.addrIDs, addr),
+			idOf(h.keyIDs, hex.EncodeToString(h.keyAddr(key).Bytes())), ver.coq), c,
+			map[string]any{"op": "sign", "validator": v, "chain": chain, "id": id, "named_address": addr, "signing_key": key, "signed": "current",
+				"bytes": hex.EncodeToString(ver.bytes), "signature": hex.EncodeToString(sig)})
+	}
+	sign(0, 0, a.Hex()) // the key / account validator 0 has registered for chain-a only
+	if rotated {
+		sign(0, 4, h.keyAddr(4).Hex()) // the key it has registered for chain-b
+	}
+	sign(1, 1, h.reg[1][1].addr)
+	h.finish()
 }
